@@ -15,6 +15,7 @@ package c14
 import (
 	"bytes"
 	"fmt"
+	"math"
 	"strings"
 	"testing"
 	"time"
@@ -35,7 +36,8 @@ type Case struct {
 	SH     int       `json:"sh,omitempty"`
 	Alt    [][]int   `json:"alt,omitempty"`    // extra sub-policies (paths) to opacify for the address check
 	NoAddr bool      `json:"noaddr,omitempty"` // skip the address/wire part (done by a sibling case)
-	Tag    string    `json:"tag,omitempty"`
+	Tag    string    `json:"tag,omitempty"`    // witness pattern (label only)
+	Gen    string    `json:"gen,omitempty"`    // generator mode (label only)
 }
 
 const maxDecodeDepth = 32
@@ -121,7 +123,13 @@ func checkCase(c Case) error {
 	want := refAccepts(root, sh, c.H, c.T, msg, sigs, pres)
 	got := verify(presented, &c, msg, sigs, pres)
 	if got != want {
-		return stats.Failf("C14/verdict", "Verify accepted=%v, reference accepted=%v: policy %s height=%d time=%d sighash#%d witnesses %s [%s]",
+		key := "C14/verdict"
+		for _, t := range sh.afters {
+			if t > maxSafeLock {
+				key = keyAfterOverflow
+			}
+		}
+		return stats.Failf(key, "Verify accepted=%v, reference accepted=%v: policy %s height=%d time=%d sighash#%d witnesses %s [%s]",
 			got, want, root, c.H, c.T, c.SH, witnessText(&c), c.Tag)
 	}
 
@@ -173,9 +181,15 @@ func checkCase(c Case) error {
 	}
 	labels := []string{"verdict:" + verdict, "root:" + kind}
 	if c.Tag != "" {
-		labels = append(labels, "witness:"+c.Tag, "witness:"+c.Tag+":"+verdict)
+		labels = append(labels, "witness:"+c.Tag+":"+verdict)
+	}
+	if c.Gen != "" {
+		labels = append(labels, "gen:"+c.Gen+":"+verdict)
 	}
 	if root.K == "th" {
+		if _, wide := presentedDepth(root, 0); wide {
+			labels = append(labels, "width:>255")
+		}
 		d := sh.maxDepth
 		switch {
 		case d > 32:
@@ -337,6 +351,23 @@ func checkAddrSubsets(c AddrCase) error {
 		rec.Sample(mixedDepth, map[string]any{"policy": c.P.String(), "subsets": 1 << len(nodes)})
 	}
 	return nil
+}
+
+// ---- known finding ---------------------------------------------------------------------------
+
+// TestKnown: a time lock at the top of the int64 range is satisfied immediately.
+func TestKnown(t *testing.T) {
+	stats.ProbeKnown(t, keyAfterOverflow, "after(t) with t > MaxInt64-62135596800 s wraps inside time.Unix and is satisfied at any median time", func() error {
+		for _, lock := range []int64{math.MaxInt64, maxSafeLock + 1} {
+			for _, median := range []int64{0, 1700000000} {
+				p := types.PolicyThreshold(1, []types.SpendPolicy{types.PolicyAfter(time.Unix(lock, 0))})
+				if p.Verify(0, time.Unix(median, 0), types.Hash256{}, nil, nil) == nil {
+					return stats.Failf(keyAfterOverflow, "thresh(1,[after(%d)]) accepted at median time %d", lock, median)
+				}
+			}
+		}
+		return nil
+	})
 }
 
 // ---- replay entries --------------------------------------------------------------------------
